@@ -23,6 +23,9 @@ def handle_cell(cell: Cell, titles: Dict[str, int]):
 
     if isinstance(cell.row, str):
         if cell.row:
+            if not (cell.row.isascii() and cell.row.isdigit()):
+                # int() reads ' 7', '+7', '1_0' and digits of other scripts as well, and fails with its own error on the rest
+                raise E2PyclCellException(f'Invalid row number of {cell}')
             if int(cell.row) < 1:
                 # rows are numbered from 1: A0 would become the method name _0_0_-1 in the generated class
                 raise E2PyclCellException(f'Invalid row number of {cell}')
